@@ -233,6 +233,12 @@ func c10Case(w *core.W, j int) {
 		w.Inconclusive("keygen:" + err.Error())
 		return
 	}
+	if j == 5 { // (one case per run) a key whose tag is 0
+		if k0, e0 := tagZeroKey(zone.Pres(), 257); e0 == nil {
+			k = k0
+			w.Count("tag_zero_keys", 1)
+		}
+	}
 	an := algName(alg)
 	sl := signableLayouts()
 	l := sl[g.R.IntN(len(sl))]
@@ -313,6 +319,9 @@ func c10Case(w *core.W, j int) {
 	}
 	if serr != nil {
 		w.Count("sign_errors", 1)
+		if k.Key.KeyTag() == 0 && model.KeyTag(model.KeyRdata(k.Key.Flags, 3, alg, func() []byte { b, _ := base64.StdEncoding.DecodeString(k.Key.PublicKey); return b }())) == 0 {
+			w.Violation("C10/sign-fails/key-tag-0", fmt.Sprintf("Sign with a key whose (correct) tag is 0 fails: %v", serr), wit)
+		}
 		if j%9 == 8 {
 			w.Violation("C10/sign-fails/large-rrset/"+algName(alg), fmt.Sprintf("Sign of a well-formed TXT RRset of %d records fails: %v", len(set.recs), serr), wit)
 		}
@@ -591,6 +600,17 @@ func c10Case(w *core.W, j int) {
 		modk("key.owner-ancestor", func(kk *dns.DNSKEY) { kk.Hdr.Name = anc })
 	}
 	modk("key.owner-descendant", func(kk *dns.DNSKEY) { kk.Hdr.Name = "sub." + kk.Hdr.Name })
+	for _, fp := range [][2]string{{"s", "\u017f"}, {"S", "\u017f"}, {"k", "\u212a"}, {"K", "\u212a"}} {
+		if i := strings.Index(k.Key.Hdr.Name, fp[0]); i >= 0 {
+			nn := k.Key.Hdr.Name[:i] + fp[1] + k.Key.Hdr.Name[i+1:]
+			modk("key.owner-unicode-fold", func(kk *dns.DNSKEY) { kk.Hdr.Name = nn })
+			mods("rrsig.owner-unicode-fold", func(s *dns.RRSIG) {
+				if x := strings.Index(s.Hdr.Name, fp[0]); x >= 0 {
+					s.Hdr.Name = s.Hdr.Name[:x] + fp[1] + s.Hdr.Name[x+1:]
+				}
+			})
+		}
+	}
 	rawKey, _ := base64.StdEncoding.DecodeString(k.Key.PublicKey)
 	for f := 0; f < 6; f++ {
 		bit := g.R.IntN(len(rawKey) * 8)
